@@ -125,6 +125,40 @@ extern "C" int epoll_wait(int epfd, struct epoll_event *ev, int max, int timeout
     return m;
 }
 
+// fault switches for the plumbing ops: the next n calls fail / report as asked
+static int g_sock_fail = 0;        // socket(2) -> EMFILE
+static int g_accept_fail = 0;      // accept(2) -> EMFILE
+static int g_late_fail = 0;        // getsockopt(SO_ERROR) on a connecting socket -> ECONNREFUSED
+static bool g_inprogress = false;  // connect(2) -> EINPROGRESS although the connection is made
+typedef int (*socket_t)(int, int, int);
+typedef int (*accept_t)(int, struct sockaddr *, socklen_t *);
+typedef int (*connect_t)(int, const struct sockaddr *, socklen_t);
+typedef int (*getsockopt_t)(int, int, int, void *, socklen_t *);
+extern "C" int socket(int d, int t, int p) {
+    static socket_t real = (socket_t)dlsym(RTLD_NEXT, "socket");
+    if (g_sock_fail > 0 && d == AF_UNIX) { --g_sock_fail; errno = EMFILE; return -1; }
+    return real(d, t, p);
+}
+extern "C" int accept(int fd, struct sockaddr *a, socklen_t *l) {
+    static accept_t real = (accept_t)dlsym(RTLD_NEXT, "accept");
+    if (g_accept_fail > 0) { --g_accept_fail; errno = EMFILE; return -1; }
+    return real(fd, a, l);
+}
+extern "C" int connect(int fd, const struct sockaddr *a, socklen_t l) {
+    static connect_t real = (connect_t)dlsym(RTLD_NEXT, "connect");
+    int r = real(fd, a, l);
+    if (r == 0 && g_inprogress && a && a->sa_family == AF_UNIX) { errno = EINPROGRESS; return -1; }
+    return r;
+}
+extern "C" int getsockopt(int fd, int level, int name, void *val, socklen_t *len) {
+    static getsockopt_t real = (getsockopt_t)dlsym(RTLD_NEXT, "getsockopt");
+    int r = real(fd, level, name, val, len);
+    if (r == 0 && level == SOL_SOCKET && name == SO_ERROR && g_late_fail > 0 && val && *(int *)val == 0) {
+        --g_late_fail; *(int *)val = ECONNREFUSED;
+    }
+    return r;
+}
+
 // ---------------------------------------------------------------- the object under test
 struct Act { char kind; std::vector<uint8_t> d; };   // 's' send, 'e' enable, 'd' disable, 'x' disconnect
 struct Script { bool set = false; std::vector<Act> acts; };
@@ -485,6 +519,7 @@ static NScript kn_fail, kn_conn;
 static int raw_fd = -1;
 static std::string raw_got; static bool raw_eof = false, raw_hold = false;
 static int g_activity = 0;
+static int g_budget = 0;
 
 static void add(std::vector<NEv> &v, char kind, const uint8_t *p = nullptr, size_t n = 0) {
     ++g_activity;
@@ -504,6 +539,8 @@ static void sv_run(const NScript &sc, const TcpServer::ConnToken &t) {
             case 'c': sv->cleanup(); break;
             case 'd': sv->disconnect(t); break;
             case 's': sv->send(t, a.d.empty() ? (const void *)&g_dummy : (const void *)a.d.data(), a.d.size()); break;
+            case 'm': if (g_budget > 0) { --g_budget; sv->send(t, a.d.empty() ? (const void *)&g_dummy : (const void *)a.d.data(), a.d.size()); } break;
+            case 'h': sv->shutdown(t, SHUT_WR); break;
         }
     }
 }
@@ -515,6 +552,8 @@ static void cl_run(int i, const NScript &sc) {
             case 'c': cl[i]->cleanup(); break;
             case 't': cl[i]->start(); break;
             case 's': cl[i]->send(a.d.empty() ? (const void *)&g_dummy : (const void *)a.d.data(), a.d.size()); break;
+            case 'm': if (g_budget > 0) { --g_budget; cl[i]->send(a.d.empty() ? (const void *)&g_dummy : (const void *)a.d.data(), a.d.size()); } break;
+            case 'h': cl[i]->shutdown(SHUT_WR); break;
         }
     }
 }
@@ -528,27 +567,34 @@ static void kn_run(const NScript &sc) {
         }
     }
 }
+// Every callback object carries state on the heap of its std::function and touches it after the
+// script ran: a call that destroys the std::function while it is executing is seen by ASan.
+struct Guard { char pad[64]; Guard() { memset(pad, 7, sizeof(pad)); } void touch() const { volatile char c = pad[13]; (void)c; } };
+
 static void sv_install() {
-    sv->setConnectedCallback([](const TcpServer::ConnToken &t) { add(sv_ev[tok_index(t)], 'C'); sv_run(sv_conn, t); });
-    sv->setDisconnectedCallback([](const TcpServer::ConnToken &t) { add(sv_ev[tok_index(t)], 'D'); sv_run(sv_disc, t); });
-    sv->setReceiveCallback([](const TcpServer::ConnToken &t, Buffer &b) {
-        add(sv_ev[tok_index(t)], 'R', b.readableBegin(), b.readableSize()); b.hasReadAll(); sv_run(sv_recv, t); }, 0);
-    sv->setSendCompleteCallback([](const TcpServer::ConnToken &t) { add(sv_ev[tok_index(t)], 'S'); sv_run(sv_sc, t); });
+    Guard g;
+    sv->setConnectedCallback([g](const TcpServer::ConnToken &t) { add(sv_ev[tok_index(t)], 'C'); sv_run(sv_conn, t); g.touch(); });
+    sv->setDisconnectedCallback([g](const TcpServer::ConnToken &t) { add(sv_ev[tok_index(t)], 'D'); sv_run(sv_disc, t); g.touch(); });
+    sv->setReceiveCallback([g](const TcpServer::ConnToken &t, Buffer &b) {
+        add(sv_ev[tok_index(t)], 'R', b.readableBegin(), b.readableSize()); b.hasReadAll(); sv_run(sv_recv, t); g.touch(); }, 0);
+    sv->setSendCompleteCallback([g](const TcpServer::ConnToken &t) { add(sv_ev[tok_index(t)], 'S'); sv_run(sv_sc, t); g.touch(); });
 }
 static void cl_install(int i) {
-    cl[i]->setConnectedCallback([i] { add(cl_ev[i], 'C'); cl_run(i, cl_conn[i]); });
-    cl[i]->setDisconnectedCallback([i] { add(cl_ev[i], 'D'); cl_run(i, cl_disc[i]); });
-    cl[i]->setReceiveCallback([i](Buffer &b) { add(cl_ev[i], 'R', b.readableBegin(), b.readableSize()); b.hasReadAll(); cl_run(i, cl_recv[i]); }, 0);
-    cl[i]->setSendCompleteCallback([i] { add(cl_ev[i], 'S'); cl_run(i, cl_sc[i]); });
+    Guard g;
+    cl[i]->setConnectedCallback([i, g] { add(cl_ev[i], 'C'); cl_run(i, cl_conn[i]); g.touch(); });
+    cl[i]->setDisconnectedCallback([i, g] { add(cl_ev[i], 'D'); cl_run(i, cl_disc[i]); g.touch(); });
+    cl[i]->setReceiveCallback([i, g](Buffer &b) { add(cl_ev[i], 'R', b.readableBegin(), b.readableSize()); b.hasReadAll(); cl_run(i, cl_recv[i]); g.touch(); }, 0);
+    cl[i]->setSendCompleteCallback([i, g] { add(cl_ev[i], 'S'); cl_run(i, cl_sc[i]); g.touch(); });
 }
 static void kn_install() {
-    kn->setConnectedCallback([](TcpConnection *c) {
+    Guard g;
+    kn->setConnectedCallback([g](TcpConnection *c) {
         add(kn_ev, 'C');
         c->disconnect();                                     // the bare connector's connections are not kept
         g_loop->runNext([c] { delete c; }, "verif");
-        kn_run(kn_conn);
+        kn_run(kn_conn); g.touch();
     });
-    kn->setConnectFailCallback([] { add(kn_ev, 'F'); kn_run(kn_fail); });
+    kn->setConnectFailCallback([g] { add(kn_ev, 'F'); kn_run(kn_fail); g.touch(); });
 }
 
 static void raw_poll() {
@@ -590,6 +636,7 @@ static void destroy() {
     drain();
     toks.clear(); sv_ev.clear(); sv_conn.clear(); sv_disc.clear(); sv_recv.clear(); sv_sc.clear();
     raw_got.clear(); raw_eof = false; raw_hold = false; g_livelock = false;
+    g_sock_fail = g_accept_fail = g_late_fail = 0; g_inprogress = false; g_budget = 0;
     unlink(g_path.c_str());
 }
 // canonical form of the callbacks of one connection in one op: C? R<all bytes>? S? D?  (how many
@@ -630,6 +677,8 @@ static bool parse_script(const std::string &w, const std::string &allowed, NScri
         NAct a;
         if (t == "stop") a.kind = 'p'; else if (t == "cleanup") a.kind = 'c'; else if (t == "disc") a.kind = 'd';
         else if (t == "start") a.kind = 't';
+        else if (t == "shut") a.kind = 'h';
+        else if (t.size() >= 2 && t[0] == 'm' && t[1] == ':') { a.kind = 'm'; if (!vh::unhex(t.substr(2), a.d) || a.d.size() > 64) return false; }
         else if (t.size() >= 2 && t[0] == 's' && t[1] == ':') { a.kind = 's'; if (!vh::unhex(t.substr(2), a.d) || a.d.size() > 64) return false; }
         else return false;
         if (allowed.find(a.kind) == std::string::npos) return false;
@@ -665,7 +714,7 @@ static bool op(const std::vector<std::string> &w) {
     SockAddr addr{DomainSockPath(g_path)};
     uint64_t k = 0, n = 0; std::vector<uint8_t> d; NScript sc; int ret = 1;
     auto cidx = [&](size_t pos) { return w.size() > pos && vh::to_u64(w[pos], k) && k < 2; };
-    if (o == "nsinit" && w.size() == 1) ret = sv->initialize(addr, 8);
+    if (o == "nsinit" && w.size() == 1) { if (sv->state() == TcpServer::State::kNone) sv_install(); ret = sv->initialize(addr, 8); }
     else if (o == "nsstart" && w.size() == 1) ret = sv->start();
     else if (o == "nsstop" && w.size() == 1) sv->stop();
     else if (o == "nscleanup" && w.size() == 1) { sv->cleanup(); sv_install(); }
@@ -674,13 +723,17 @@ static bool op(const std::vector<std::string> &w) {
                               : sv->send(TcpServer::ConnToken(1000 + k, k), "x", 1);        // a token this server never issued
     else if (o == "nsdisc" && w.size() == 2 && vh::to_u64(w[1], k) && k < 16)
         ret = k < toks.size() ? sv->disconnect(toks[k]) : sv->disconnect(TcpServer::ConnToken(1000 + k, k));
+    else if (o == "nsshut" && w.size() == 2 && vh::to_u64(w[1], k) && k < 16)
+        ret = k < toks.size() ? sv->shutdown(toks[k], SHUT_WR) : sv->shutdown(TcpServer::ConnToken(1000 + k, k), SHUT_WR);
+    else if (o == "ncshut" && w.size() == 2 && cidx(1)) ret = cl[k]->shutdown(SHUT_WR);
+    else if (o == "nbudget" && w.size() == 2 && vh::to_u64(w[1], n) && n <= 8) g_budget = (int)n;
     else if (o == "nsvalid" && w.size() == 2 && vh::to_u64(w[1], k) && k < 16)
         ret = k < toks.size() ? sv->isClientValid(toks[k]) : sv->isClientValid(TcpServer::ConnToken(1000 + k, k));
     else if (o == "nscb" && w.size() == 3 && (w[1] == "conn" || w[1] == "disc" || w[1] == "recv" || w[1] == "sc")
-             && parse_script(w[2], w[1] == "sc" ? "pd" : "pds", sc)) {
+             && parse_script(w[2], w[1] == "sc" ? "pdchm" : "pdschm", sc)) {
         if (w[1] == "conn") sv_conn = sc; else if (w[1] == "disc") sv_disc = sc; else if (w[1] == "recv") sv_recv = sc; else sv_sc = sc;
     }
-    else if (o == "ncinit" && w.size() == 2 && cidx(1)) { ret = cl[k]->initialize(addr); }
+    else if (o == "ncinit" && w.size() == 2 && cidx(1)) { if (cl[k]->state() == TcpClient::State::kNone) cl_install((int)k); ret = cl[k]->initialize(addr); }
     else if (o == "ncstart" && w.size() == 2 && cidx(1)) ret = cl[k]->start();
     else if (o == "ncstop" && w.size() == 2 && cidx(1)) cl[k]->stop();
     else if (o == "nccleanup" && w.size() == 2 && cidx(1)) { cl[k]->cleanup(); cl_install((int)k); }
@@ -688,26 +741,33 @@ static bool op(const std::vector<std::string> &w) {
     else if (o == "ncsend" && w.size() == 3 && cidx(1) && vh::unhex(w[2], d) && d.size() <= 1024)
         ret = cl[k]->send(d.empty() ? (const void *)&g_dummy : (const void *)d.data(), d.size());
     else if (o == "nccb" && w.size() == 4 && cidx(1) && (w[2] == "conn" || w[2] == "disc" || w[2] == "recv" || w[2] == "sc")
-             && parse_script(w[3], (w[2] == "conn" || w[2] == "disc") ? "pts" : "pt", sc)) {
+             && parse_script(w[3], (w[2] == "conn" || w[2] == "disc") ? "ptschm" : "ptchm", sc)) {
         if (w[2] == "conn") cl_conn[k] = sc; else if (w[2] == "disc") cl_disc[k] = sc; else if (w[2] == "recv") cl_recv[k] = sc; else cl_sc[k] = sc;
     }
     else if (o == "nkinit" && w.size() == 2 && vh::to_u64(w[1], n) && n <= 5) { kn->initialize(addr); kn_install(); kn->setTryTimes((int)n); }
     else if (o == "nkstart" && w.size() == 1) ret = kn->start();
     else if (o == "nkstop" && w.size() == 1) kn->stop();
     else if (o == "nkcleanup" && w.size() == 1) kn->cleanup();
-    else if (o == "nkcb" && w.size() == 3 && (w[1] == "fail" || w[1] == "conn") && parse_script(w[2], "p", sc)) {
+    else if (o == "nkcb" && w.size() == 3 && (w[1] == "fail" || w[1] == "conn") && parse_script(w[2], "pc", sc)) {
         if (w[1] == "fail") kn_fail = sc; else if (w[1] == "conn") kn_conn = sc; else return false;
     }
     else if (o == "nrconn" && w.size() == 1 && raw_fd < 0) {
+        int sf = g_sock_fail; bool ip = g_inprogress; g_sock_fail = 0; g_inprogress = false;     // the faults are for the library's calls
         raw_fd = socket(AF_UNIX, SOCK_STREAM | SOCK_NONBLOCK, 0);
         struct sockaddr_un a; socklen_t len = addr.toSockAddr(a);
         ret = ::connect(raw_fd, (struct sockaddr *)&a, len) == 0;
+        g_sock_fail = sf; g_inprogress = ip;
         if (!ret) { close(raw_fd); raw_fd = -1; } else raw_eof = false;
     }
     else if (o == "nrsend" && w.size() == 2 && raw_fd >= 0 && vh::unhex(w[1], d) && d.size() <= 1024 && !d.empty())
         ret = real_write()(raw_fd, d.data(), d.size()) == (ssize_t)d.size();
     else if (o == "nrclose" && w.size() == 1 && raw_fd >= 0) { close(raw_fd); raw_fd = -1; }
     else if (o == "nrhold" && w.size() == 3 - 1 && vh::to_u64(w[1], n) && n <= 1) raw_hold = (n == 1);
+    else if (o == "nfault" && w.size() == 3 && vh::to_u64(w[2], n) && n <= 8 &&
+             (w[1] == "socket" || w[1] == "accept" || w[1] == "late" || w[1] == "inprog")) {
+        if (w[1] == "socket") g_sock_fail = (int)n; else if (w[1] == "accept") g_accept_fail = (int)n;
+        else if (w[1] == "late") g_late_fail = (int)n; else g_inprogress = n != 0;
+    }
     else if (o == "nadv" && w.size() == 2 && vh::to_u64(w[1], n) && n <= 100000) vt::advance_ms((int64_t)n);
     else return false;
     report(ret);
@@ -733,7 +793,7 @@ int main() {
         if (w.empty()) continue;
         if (w[0] == "case") { new_case(); std::cout << line << "\n"; continue; }
         const std::string &op = w[0];
-        if (op.size() >= 2 && op[0] == 'n' && std::string("sckra").find(op[1]) != std::string::npos) {
+        if (op.size() >= 2 && op[0] == 'n' && std::string("sckrabf").find(op[1]) != std::string::npos) {
             int saved = g_fd; g_fd = -1;
             bool okn = net::op(w);
             g_fd = saved;
